@@ -195,6 +195,9 @@ func (s *StorageClient) Get(key string) (*mc.Item, error) {
 func (s *StorageClient) GetMulti(keys []string) (map[string]*mc.Item, error) {
 	ret := make(map[string]*mc.Item)
 	for _, key := range keys {
+		if _, dup := ret[key]; dup {
+			continue // a repeated key would overwrite (and leak) the item already fetched
+		}
 		item, _ := s.Get(key)
 		if item != nil {
 			ret[key] = item
